@@ -20,6 +20,7 @@ import tempfile
 from hypothesis import strategies as st
 
 from ..runner import Violation
+from ..fasta_guard_c16 import TableGuard, molecule_digest, digest_diff, CODE_TABLE_NAMES
 
 PROPERTY = "C18"
 RULE = ("sequences: Hypothesis draws a type (aa/dna/rna), up to 4 blocks (motif over the 25/18 codes x repeat count; lengths "
@@ -196,7 +197,7 @@ def sequence_strategy():
         ambig = "".join(c for c in alpha if len(CODE_MAP[t][c]) != 1)
         motif = st.one_of(st.text(alphabet=alpha, min_size=1, max_size=12), st.text(alphabet=alpha, min_size=1, max_size=40),
                           st.text(alphabet=ambig, min_size=1, max_size=4))
-        reps = st.one_of(st.just(1), st.just(1), st.integers(1, 6), st.integers(1, 80), st.integers(100, 400))
+        reps = st.one_of(st.just(1), st.just(1), st.integers(1, 6), st.integers(1, 80), st.integers(100, 300))
         # the empty sequence through an explicit selector (~6 %), otherwise 1..4 blocks
         blocks = st.tuples(st.integers(0, 15), st.lists(st.tuples(motif, reps).map(list), min_size=1, max_size=4)).map(
             lambda t: [] if t[0] == 7 else t[1])
@@ -209,7 +210,7 @@ def sequence_strategy():
     return st.sampled_from(["aa", "dna", "rna", "aa"]).flatmap(for_type)
 
 
-def check_sequence(ctx, case):
+def check_sequence(ctx, case, S=None):
     E = env()
     fa, pt = E["fasta"], E["pt"]
     typ = case["type"]
@@ -230,7 +231,23 @@ def check_sequence(ctx, case):
     ctx.case((typ, raw), nontrivial=(len(kept) >= 2 and n_amb > 0), sample={"type": typ, "sequence": raw[:120]}, cls=cls)
     short = raw if len(raw) <= 60 else raw[:57] + "..."
     label = "Sequence(%r, type=%r)" % (short, typ)
-    s = fa.Sequence("n1", raw, type=typ) if typ != "aa" or len(raw) % 2 else fa.Sequence("n1", raw)
+    make = (lambda: fa.Sequence("n1", raw, type=typ)) if typ != "aa" or len(raw) % 2 else (lambda: fa.Sequence("n1", raw))
+    s = make()
+    first = molecule_digest(s)
+    # the identical construction once more: same input, same process, same answer
+    bad = digest_diff(first, molecule_digest(make()))
+    if bad:
+        ctx.count("repeat-differs")
+        if not ctx.skip_bucket("c18:repeat-differs"):
+            small = case
+            if S is not None:
+                verify_tables(ctx, S, case)
+                small = shrink_sequence(E, S, typ, kept, repeat_fails(E))
+                bad = repeat_fails(E)(small) or bad
+                S.guard.restore()
+            ctx.violation("c18:repeat-differs", "Sequence(%r, type=%r) built twice in a row in one process differs: %s"
+                          % (build_raw(small)[0][:60], typ, bad), {"kind": "history", "calls": [small]})
+    not_table_object(E, s, typ, label, case)
     atoms, V, lab = check_molecule(E, s, typ, kept, label, case, "c18:sequence")
     # order independence: compare both with the oracle and with each other
     if perm != kept:
@@ -241,6 +258,7 @@ def check_sequence(ctx, case):
             raise Violation("c18:permutation:differs", "%s and its permutation %r differ: %s" % (label, perm[:60], bad), case)
     # the formula prefix
     f = pt.formula(typ + ":" + raw)
+    not_table_object(E, f, typ, "formula(%r)" % (typ + ":" + short), case)
     bad = cmp_atoms(f.atoms, atoms)
     if bad:
         raise Violation("c18:prefix:formula", "formula(%r): %s" % (typ + ":" + short, bad), case)
@@ -248,10 +266,180 @@ def check_sequence(ctx, case):
         want = lab / E["NA"] / float(V) * 1e24
         if f.density is None or not close(f.density, want):
             raise Violation("c18:prefix:density", "formula(%r).density is %r, expected %r" % (typ + ":" + short, f.density, want), case)
+    return first
+
+
+def not_table_object(E, obj, typ, label, case):
+    """A sequence (or the formula of a prefix) owns its formula objects: it never hands out those of a table entry,
+    otherwise `seq.labile_formula += x` would rewrite the table."""
+    fa = E["fasta"]
+    mine = [obj] if not hasattr(obj, "labile_formula") else [obj.labile_formula, obj.natural_formula, obj.formula]
+    for tname in ("AMINO_ACID_CODES", "DNA_CODES", "RNA_CODES", "DNA_BASES", "RNA_BASES"):
+        tab = getattr(fa, tname)
+        for k in tab:
+            for attr in ("labile_formula", "natural_formula", "formula"):
+                theirs = getattr(tab[k], attr)
+                if any(x is theirs for x in mine):
+                    raise Violation("c18:shares-table-formula", "%s returns the %s object of fasta.%s[%r]; changing it in place "
+                                    "(+=) would change the table" % (label, attr, tname, k), case)
+
+
+# ----------------------------------------------------------------------
+# sequences of calls in one process
+REPEAT_AFTER = 7
+
+
+class Session(object):
+    def __init__(self, E):
+        self.E = E
+        self.guard = TableGuard(E["fasta"], "c18")
+        self.recent = []
+        self.remembered = []      # [age, case, digest, cases since]
+        self.n = 0
+
+
+def seq_case(typ, kept):
+    return {"kind": "sequence", "type": typ, "blocks": [[kept, 1]] if kept else [], "star": None, "blanks": [],
+            "perm": ["reverse", [0]]}
+
+
+def build_sequence(E, case):
+    raw = build_raw(case)[0]
+    return E["fasta"].Sequence("n1", raw, type=case["type"])
+
+
+def repeat_fails(E):
+    return lambda c: digest_diff(molecule_digest(build_sequence(E, c)), molecule_digest(build_sequence(E, c)))
+
+
+def modifies_tables(E, S):
+    def f(c):
+        build_sequence(E, c)
+        return bool(S.guard.diff())
+    return f
+
+
+def shrink_sequence(E, S, typ, kept, fails):
+    """Halve, then delete single codes, while *fails* stays true; the tables are put back before every try."""
+    def bad(k):
+        S.guard.restore()
+        try:
+            return bool(fails(seq_case(typ, k)))
+        except Exception:  # noqa
+            return False
+    best = kept
+    if not bad(best):
+        S.guard.restore()
+        return seq_case(typ, kept)
+    progress = True
+    while progress and len(best) > 1:
+        progress = False
+        h = len(best) // 2
+        for trial in (best[:h], best[h:]):
+            if trial and bad(trial):
+                best, progress = trial, True
+                break
+    progress = len(best) <= 80
+    while progress and len(best) > 1:
+        progress = False
+        for k in range(len(best)):
+            trial = best[:k] + best[k + 1:]
+            if bad(trial):
+                best, progress = trial, True
+                break
+    S.guard.restore()
+    return seq_case(typ, best)
+
+
+def verify_tables(ctx, S, case):
+    """Guard check after a case; a sequence case that modified a table is reduced before it is saved."""
+    E = S.E
+    if case.get("kind") == "sequence" and S.guard.diff():
+        changed = sorted(set((t, k) for t, k, _, _, _ in S.guard.diff()))
+        if any("c18:table-modified:%s:%s" % tk not in ctx.found for tk in changed):
+            S.guard.restore()
+            small = shrink_sequence(E, S, case["type"], build_raw(case)[1], modifies_tables(E, S))
+            build_sequence(E, small)
+            if S.guard.diff():
+                case = small
+            else:
+                S.guard.restore()
+                build_sequence(E, case)
+    S.guard.verify(ctx, [case], "while Sequence(%r, type=%r) was built" % (build_raw(case)[0][:60], case["type"]))
+
+
+def run_call(ctx, S, case, root=None):
+    E = S.E
+    kind = case.get("kind")
+    if kind == "fasta":
+        try:
+            check_fasta(ctx, case, root)
+        finally:
+            S.guard.verify(ctx, [case], "while the FASTA file %r was loaded" % (case["stem"] + case["ext"]))
+        return
+    if kind == "code":
+        try:
+            check_code(ctx, case)
+        finally:
+            S.guard.verify(ctx, [case], "while code %r of %s was evaluated" % (case["code"], case["type"]))
+        return
+    if kind == "code-sweep":
+        try:
+            sweep_codes(ctx)
+        finally:
+            S.guard.verify(ctx, [case], "during the sweep of the code tables")
+        return
+    S.n += 1
+    S.recent = (S.recent + [case])[-8:]
+    for r in S.remembered:
+        r[3].append(case)
+    try:
+        first = check_sequence(ctx, case, S)
+        for r in list(S.remembered):
+            r[0] += 1
+            if r[0] >= REPEAT_AFTER:
+                S.remembered.remove(r)
+                ctx.count("repeated-later")
+                bad = digest_diff(r[2], molecule_digest(build_sequence(E, r[1])))
+                if bad:
+                    ctx.count("repeat-differs")
+                    ctx.violation("c18:repeat-differs", "Sequence(%r, type=%r) differs %d cases later in the same process: %s"
+                                  % (build_raw(r[1])[0][:60], r[1]["type"], r[0], bad),
+                                  {"kind": "history", "calls": [r[1]] + r[3][:-1]})
+        if S.n % 3 == 0 and len(S.remembered) < 4 and len(build_raw(case)[0]) <= 400:
+            S.remembered.append([0, case, first, []])
+    finally:
+        verify_tables(ctx, S, case)
+
+
+def check_history(ctx, case):
+    """Replay of a saved sequence of calls on a fresh process; the first call is repeated at the end."""
+    E = env()
+    S = Session(E)
+    calls = case["calls"]
+    first = None
+    if calls and calls[0].get("kind") == "sequence":
+        first = molecule_digest(build_sequence(E, calls[0]))
+        S.guard.verify(ctx, calls[:1], "while the first sequence was built")
+    for c in calls:
+        run_call(ctx, S, c)
+    if first is not None:
+        bad = digest_diff(first, molecule_digest(build_sequence(E, calls[0])))
+        if bad:
+            ctx.violation("c18:repeat-differs", "Sequence(%r, type=%r) differs after %d further calls: %s"
+                          % (build_raw(calls[0])[0][:60], calls[0]["type"], len(calls), bad), case)
+        S.guard.verify(ctx, calls, "by the end of the history")
 
 
 def task_sequences(ctx, n):
-    ctx.search("sequences", sequence_strategy(), check_sequence, n)
+    E = env()
+    S = Session(E)
+    sweep_codes(ctx)
+    S.guard.verify(ctx, [{"kind": "code-sweep"}], "during the sweep of the code tables")
+    ctx.search("sequences", sequence_strategy(), lambda c, v: run_call(c, S, v), n)
+    S.guard.verify(ctx, S.recent, "by the end of the task")
+    sweep_codes(ctx)
+    ctx.extra["table_guard_checks"] = S.guard.checks
 
 
 # ----------------------------------------------------------------------
@@ -270,10 +458,17 @@ def check_code(ctx, case):
     check_molecule(E, s, typ, code, "Sequence(%r, type=%r)" % (code, typ), case, "c18:code:sequence")
 
 
-def task_codes(ctx):
+def sweep_codes(ctx):
     for typ in ("aa", "dna", "rna"):
         for code in sorted(CODE_MAP[typ]):
             ctx.check(check_code, {"kind": "code", "type": typ, "code": code})
+
+
+def task_codes(ctx):
+    E = env()
+    guard = TableGuard(E["fasta"], "c18")
+    sweep_codes(ctx)
+    guard.verify(ctx, [{"kind": "code-sweep"}], "during the sweep of the code tables")
 
 
 # ----------------------------------------------------------------------
@@ -402,9 +597,13 @@ def _check_fasta(ctx, case, root, E, fa):
 
 
 def task_fasta(ctx, n):
+    E = env()
+    S = Session(E)
     root = tempfile.mkdtemp(prefix="c18-")
     try:
-        ctx.search("fasta", fasta_strategy(), lambda c, v: check_fasta(c, v, root), n)
+        ctx.search("fasta", fasta_strategy(), lambda c, v: run_call(c, S, v, root), n)
+        S.guard.verify(ctx, S.recent, "by the end of the task")
+        sweep_codes(ctx)
     finally:
         shutil.rmtree(root, ignore_errors=True)
 
@@ -413,10 +612,12 @@ def task_fasta(ctx, n):
 def tasks(tier):
     if tier == "quick":
         return [("codes", task_codes, {}),
-                ("sequences-a", task_sequences, dict(n=400)),
-                ("sequences-b", task_sequences, dict(n=400)),
-                ("sequences-c", task_sequences, dict(n=400)),
-                ("sequences-d", task_sequences, dict(n=400)),
+                ("sequences-a", task_sequences, dict(n=250)),
+                ("sequences-b", task_sequences, dict(n=250)),
+                ("sequences-c", task_sequences, dict(n=250)),
+                ("sequences-d", task_sequences, dict(n=250)),
+                ("sequences-e", task_sequences, dict(n=250)),
+                ("sequences-f", task_sequences, dict(n=250)),
                 ("fasta-a", task_fasta, dict(n=200)),
                 ("fasta-b", task_fasta, dict(n=200))]
     out = [("codes", task_codes, {})]
@@ -433,5 +634,9 @@ def replay(ctx, case):
         check_sequence(ctx, case)
     elif k == "code":
         check_code(ctx, case)
+    elif k == "history":
+        check_history(ctx, case)
+    elif k == "code-sweep":
+        check_history(ctx, {"kind": "history", "calls": [case]})
     else:
         check_fasta(ctx, case)
